@@ -437,6 +437,12 @@ type Env struct {
 	notifMu sync.Mutex
 	notifN  map[hsms.ConnState]int // notifications delivered so far, per `next` state
 
+	// RetGate, when non-nil, delays the "R" entry of SyncSend until it is closed (bounded): a
+	// deterministic scenario uses it to order "V" (peer has read the frame) before "R" for sends
+	// that do not wait for a reply — the write returns as soon as the peer's Read has copied the
+	// bytes, i.e. possibly before the peer's reader has appended its "V".
+	RetGate chan struct{}
+
 	hookMu         sync.Mutex
 	afterWriteLock func() // run once inside writeFrame, after the write lock is taken (existing test seam)
 }
@@ -715,6 +721,12 @@ func (e *Env) SyncSend(ctx context.Context, id int64, stream, fn byte, w bool) (
 	res := Classify(reply, err)
 	if reply != nil && err != nil {
 		res = "both"
+	}
+	if g := e.RetGate; g != nil {
+		select {
+		case <-g:
+		case <-time.After(3 * time.Second):
+		}
 	}
 	e.Rec.Add(Entry{K: 'R', ID: id, Result: res, N: el.Milliseconds()})
 	return res, el
